@@ -71,7 +71,7 @@ pub enum Shape {
     Agg { by: GroupBy, strs: bool },
     /// `SELECT DISTINCT <by> FROM t`
     Distinct { by: GroupBy },
-    /// `SELECT t.id, t.s, u.id2, u.w FROM t JOIN u ON …`
+    /// `SELECT t.id, t.s, u.id2, u.w, u.s2 FROM t JOIN u ON …`
     Join { kind: JoinKind, algo: JoinAlgo, filter: bool },
     /// `SELECT id, g, <window fn> OVER ([PARTITION BY g] ORDER BY …) FROM t`
     Window { f: WinFn, part: bool },
@@ -166,7 +166,7 @@ impl Shape {
             Shape::Sort { .. } => 3,
             Shape::Agg { by, strs } => (if *by == GroupBy::KG { 2 } else { 1 }) + 3 + if *strs { 2 } else { 0 } + extra,
             Shape::Distinct { by } => if *by == GroupBy::KG { 2 } else { 1 },
-            Shape::Join { kind, .. } => if matches!(kind, JoinKind::Semi | JoinKind::Anti) { 2 } else { 4 },
+            Shape::Join { kind, .. } => if matches!(kind, JoinKind::Semi | JoinKind::Anti) { 2 } else { 5 },
             Shape::Window { .. } => 3,
             Shape::Union => 2,
             Shape::AggJoin { .. } => 3 + extra,
@@ -244,7 +244,7 @@ impl QuerySpec {
                             JoinKind::Right => "RIGHT JOIN",
                             _ => "FULL JOIN",
                         };
-                        format!("SELECT t.id, t.s, u.id2, u.w FROM {t} {kw} {u} ON {cond}")
+                        format!("SELECT t.id, t.s, u.id2, u.w, u.s2 FROM {t} {kw} {u} ON {cond}")
                     }
                 }
             }
